@@ -1,15 +1,16 @@
 #!/bin/sh
 # seeded_eval.sh <patch.diff> <property...>: applies a seeded change to /repo, runs the quick checks named, restores /repo.
 patch=$1; shift
-cd /repo || exit 2
-git diff --quiet || { echo "/repo has uncommitted changes"; exit 2; }
+REPO=${VERIF_REPO:-/repo}
+cd $REPO || exit 2
+git diff --quiet || { echo "$REPO has uncommitted changes"; exit 2; }
 git apply "$patch" || { echo "patch does not apply"; exit 2; }
 for p in "$@"; do
-  cd /verif
+  cd ${VERIF_DIR:-/verif}
   s=$(date +%s)
   out=$(timeout 1800 ./check $p ${TIER:-quick} 2>&1); rc=$?
   e=$(date +%s)
   echo "$p rc=$rc $((e-s))s"; echo "$out" | grep -E "VIOLATION|kind=|INCONCLUSIVE|KNOWN" | head -4 | cut -c1-400
 done
-cd /repo && git checkout -- . && git clean -fdq -- . >/dev/null 2>&1
-git -C /repo status --short | head -3
+cd $REPO && git checkout -- . && git clean -fdq -- . >/dev/null 2>&1
+git -C $REPO status --short | head -3
